@@ -47,6 +47,7 @@ inline long mutCount = 0;            // mutating calls seen while armed
 inline bool armed = false;           // count / crash / fail only while armed (the operation under test)
 inline long crashAt = -1;            // _exit(0) BEFORE performing the crashAt-th mutating call (1-based)
 inline long failAt = -1;             // make the failAt-th mutating call fail with failErrno
+inline bool readOpenPoints = false;  // read-only opens of existing files also count as (crash /) fault points, logged as "openrd"
 inline long failFrom = -1;           // "read-only directory": from the failFrom-th mutating call on, every directory-modifying call fails while armed
 inline int failErrno = EACCES;
 inline bool failed = false;
@@ -150,6 +151,12 @@ static int vdev_open_common(const char *fn, int dirfd, const char *path, int fla
     bool existed = vdev::existsReal(path, &st);
     bool mut = ((flags & O_CREAT) && !existed) || ((flags & O_TRUNC) && existed && st.st_size > 0);
     if (mut && vdev::gate(c, /* dirOp */ !existed)) { c.result = -1; vdev::record(c); return -1; }
+    if (!mut && existed && vdev::readOpenPoints && vdev::armed && (flags & O_ACCMODE) == O_RDONLY && S_ISREG(st.st_mode)) {
+        // reading a file back (the compression step reads the rotated file) can fail too: descriptor limit, permissions
+        c.name = "openrd";
+        if (vdev::gate(c, false)) { c.result = -1; vdev::record(c); return -1; }
+        c.name = fn;
+    }
     int fd = r_openat64(dirfd, path, flags, mode);
     int e = errno;
     c.result = fd; c.fd = fd;
